@@ -236,6 +236,12 @@ def run(R, job):
             def mutate(y):
                 if isinstance(y, core.Tag):
                     kids = list(y.children)
+                    for i_, c_ in enumerate(kids):
+                        if isinstance(c_, core.HTML):
+                            y.children[i_] += "<!--appended-->"            # `+=` on a raw-HTML child of the copy
+                    for k_, v_ in list(y.attrs.items()):
+                        if isinstance(v_, core.HTML):
+                            y.attrs[k_] += ";x"
                     y.attrs.update({"data-m": "1"}); y.add_class("mut"); y.append("added"); y.insert(0, core.Tag("i"))
                     y.name = y.name + "x"; y.add_ws = not y.add_ws
                     for c in kids: mutate(c)
@@ -257,6 +263,25 @@ def run(R, job):
                     fails.append({"input": str(desnap(before))[:300], "observed": "mutating the original changed an earlier tagify() result", "expected": "independent"})
             if len(fails) >= 3: break
 
+        # repeating in any order gives identical results - also in a fresh process, before and after other renderings
+        import subprocess, sys as _sys, json as _json
+        prog = r"""
+import sys, json
+sys.path.insert(0, %r)
+from htmltools import div, span, HTML, TagList
+x = div('say "hi" & \'bye\'\nnext', span("it's"), title="t")
+y = TagList('a "quoted" text', HTML("<b>"))
+out = [str(div('q"q')), str(x), str(y), x.get_html_string(), str(div(title='"v"', id="i'd")), str(div('q"q')), str(x), str(y), x.get_html_string(), repr(x.render()["html"])]
+print(json.dumps(out))
+""" % (os.environ.get("HV_REPO") or "/repo",)
+        try:
+            pr = subprocess.run([_sys.executable, "-c", prog], capture_output=True, text=True, timeout=60)
+            o = _json.loads(pr.stdout.strip().splitlines()[-1])
+            checked += 1
+            if o[0] != o[5] or o[1] != o[6] or o[2] != o[7] or o[3] != o[8]:
+                fails.append({"input": "fresh process: render texts with quotes, then a tag with attribute values, then the same texts again", "observed": [o[0], o[5], o[1][:80], o[6][:80]], "expected": "identical before and after"})
+        except Exception as ex:
+            fails.append({"input": "fresh-process repetition", "observed": "EXC " + type(ex).__name__ + ": " + str(ex)[:200] + (pr.stderr[-300:] if 'pr' in dir() else ""), "expected": "runs"})
         # (d) equality
         def rebuild(y):
             if isinstance(y, core.Tag):
